@@ -220,6 +220,10 @@ def check_property(pid, tier, scratch, write_baseline=False):
         print("unknown or unclaimed property " + pid)
         return 2
     P = props[pid]
+    owners = set([pid] + P.get("tag_aliases", []))   # clauses of these properties count as obligations of this one
+
+    def owns(tag):
+        return bool(owners & set(tag.split(":")[0].split(",")))
     units = P["units"]
     rl = P.get("rlimit", 30)
     runs = []
@@ -245,6 +249,7 @@ def check_property(pid, tier, scratch, write_baseline=False):
     kf = known_findings()
     violations = []       # dict(obligation, fn, unit, variant, text, tags)
     undecidable_fns = {}  # (unit, qual) -> (reason, fn meta)
+    foreign = []          # functions verified as dependencies only (clauses owned by other properties)
     heavy = []            # queries that use a large share of the solver budget (fragility watch-list)
     bounded_runs = []
     known_hits = []
@@ -305,8 +310,14 @@ def check_property(pid, tier, scratch, write_baseline=False):
                     continue
                 if name.endswith("::clone") and name not in quals:
                     continue
-                obligations += 1
                 new_baseline.append("%s %s %s" % (r.unit, variant, name))
+                fq = quals.get(name)
+                if fq is not None and fq["tags"] and not any(owns(t) for t in fq["tags"]):
+                    # a function under contract whose clauses all belong to other properties: verified here only as a
+                    # dependency; its failure is reported by the check of the property that owns it
+                    foreign.append((r.unit, name, ok))
+                    continue
+                obligations += 1
                 if ok:
                     discharged += 1
                 else:
@@ -321,12 +332,12 @@ def check_property(pid, tier, scratch, write_baseline=False):
                         undecided.append("%s: %s failed but is not in the committed baseline" % (r.label, name))
                         continue
                     ftags = f["tags"]
-                    mine = [t for t in ftags if pid in t.split(":")[0].split(",")]
+                    mine = [t for t in ftags if owns(t)]
                     if not mine:
-                        # function under contract in this unit but not carrying a clause of this property
-                        continue
+                        # no clause of its own (e.g. a trait-impl method checked against the trait's contract)
+                        mine = ["%s:%s.contract" % (pid, re.sub(r"[^A-Za-z0-9_.]+", "_", qn))]
                     for e in (errs or [dict(tags=[], kind="rejected", text="(no diagnostic captured)")]):
-                        etags = [t for t in e["tags"] if pid in t.split(":")[0].split(",")]
+                        etags = [t for t in e["tags"] if owns(t)]
                         ob = etags[0] if etags else "%s~%s" % (mine[0], re.sub(r"[^a-z]+", "-", e["kind"].lower())[:40])
                         violations.append(dict(obligation=ob, fn=qn, unit=r.unit, variant=variant, text=e["text"], kind=e["kind"],
                                                file=f["file"], path=f["path"], body=f["orig_body"], diff=f["diff"]))
@@ -343,7 +354,7 @@ def check_property(pid, tier, scratch, write_baseline=False):
                         fn_meta.append(meta)
                         named_clauses += len(f["tags"])
                         for tg in f["tags"][:2]:
-                            if len(samples) < 12 and pid in tg.split(":")[0].split(","):
+                            if len(samples) < 12 and owns(tg):
                                 samples.append(dict(obligation=tg, function=f["qual"], unit=r.unit))
 
     # bounded native stand-in (never counted as proof): failing-input search for rejected obligations, and the
@@ -353,7 +364,7 @@ def check_property(pid, tier, scratch, write_baseline=False):
     for v in violations:
         need.setdefault(v["unit"], set()).add(v["fn"])
     for (u, q), (reason, f) in undecidable_fns.items():
-        if any(pid in t.split(":")[0].split(",") for t in f["tags"]):
+        if any(owns(t) for t in f["tags"]) or not f["tags"]:
             need.setdefault(u, set()).add(q)
     bfail = {}
     # functions that are anchored in the property but outside Verus's reach: a bounded check of each stands in on
@@ -379,7 +390,7 @@ def check_property(pid, tier, scratch, write_baseline=False):
         for q in sorted(fns):
             fl = bfail.get((u, q))
             if fl:
-                ob = fl[0]["clause"] if pid in fl[0]["clause"].split(":")[0].split(",") else "%s:%s" % (pid, q)
+                ob = fl[0]["clause"] if owns(fl[0]["clause"]) else "%s:%s" % (pid, q)
                 violations.append(dict(obligation=ob + "~bounded", fn=q, unit=u, variant="native", text="bounded stand-in for %s (outside the contracts): failing input on the real code: %s [%s]" % (q, fl[0]["input"], fl[0]["clause"]),
                                        kind="bounded stand-in: failing input", file="(see contracts/bounded/%s.rs)" % u, path=q, body="", diff="",
                                        failing_input=dict(found=True, engine="bounded native harness on the real code (contracts/bounded/%s.rs)" % u, input=fl[0]["input"], clause=fl[0]["clause"], more=[x["input"] for x in fl[1:3]])))
@@ -391,12 +402,14 @@ def check_property(pid, tier, scratch, write_baseline=False):
         fl = bfail.get((v["unit"], v["fn"]))
         v["failing_input"] = dict(found=True, engine="bounded native harness on the real code (contracts/bounded/%s.rs)" % v["unit"], input=fl[0]["input"], clause=fl[0]["clause"], more=[x["input"] for x in fl[1:3]]) if fl else dict(found=False, note="verus gives no counterexample; bounded native search found none" if bounded.available(v["unit"]) else "verus gives no counterexample; no bounded harness for this unit")
     for (u, q), (reason, f) in sorted(undecidable_fns.items()):
-        mine = [t for t in f["tags"] if pid in t.split(":")[0].split(",")]
+        mine = [t for t in f["tags"] if owns(t)]
         if not mine:
-            continue
+            if f["tags"]:
+                continue
+            mine = ["%s:%s.contract" % (pid, re.sub(r"[^A-Za-z0-9_.]+", "_", q))]
         fl = bfail.get((u, q))
         if fl:
-            ob = fl[0]["clause"] if pid in fl[0]["clause"].split(":")[0].split(",") else mine[0]
+            ob = fl[0]["clause"] if owns(fl[0]["clause"]) else mine[0]
             violations.append(dict(obligation=ob + "~bounded", fn=q, unit=u, variant="native", text="Verus could not decide this function on this tree (%s); the bounded stand-in found a failing input on the real code: %s [%s]" % (reason, fl[0]["input"], fl[0]["clause"]),
                                    kind="bounded stand-in: failing input", file=f["file"], path=f["path"], body=f["orig_body"], diff=f["diff"],
                                    failing_input=dict(found=True, engine="bounded native harness on the real code (contracts/bounded/%s.rs)" % u, input=fl[0]["input"], clause=fl[0]["clause"], more=[x["input"] for x in fl[1:3]])))
@@ -464,6 +477,7 @@ def check_property(pid, tier, scratch, write_baseline=False):
             undecided=undecided,
             known_findings_reported=[h["_line"] for h, _ in known_hits],
             heavy_queries=heavy,
+            dependency_functions_failed=sorted(set("%s:%s" % (u, n) for u, n, ok in foreign if not ok)),
             bounded_checks=bounded_runs,
             bounded_standins=P.get("bounded_always", {}),
         ),
